@@ -18,7 +18,8 @@ from vf import meshes
 
 IN_PLACE = ["triangulate_face", "split_face_as_fan", "triangulate"]
 REPLACE = ["loop_subdivision", "subdivide_triangles_3quads", "subdivide_triangles_6"]
-INPUT_AFTER_Q = ["opposite_corner", "vertex_to_faces", "face_to_corners", "boundary_edges", "vertex_to_vertices", "edge_id"]
+INPUT_AFTER_Q = ["opposite_corner", "vertex_to_faces", "face_to_corners", "boundary_edges", "vertex_to_vertices", "edge_id", "is_quad", "is_triangular",
+                 "interior_vertices", "is_edge_on_border"]
 
 
 def rat(x):
@@ -67,7 +68,7 @@ def exec_surface(case):
     ops = [ev for ev in case["events"] if ev["op"] not in ("enter", "exit", "query_before")]
     if any(ev["op"] == "query_before" for ev in case["events"]):
         queried = 1
-        for q in ("vertex_to_faces", "opposite_corner", "boundary_vertices", "edge_id"):
+        for q in ("vertex_to_faces", "opposite_corner", "boundary_vertices", "edge_id", "is_quad", "is_triangular"):     # every answer the mesh memoises
             c01.query(m, q, len(coords), g["F"], rng)
     before = proj(m)
     events = []
